@@ -723,7 +723,17 @@ func (st *tunnelClientStream) SendMsg(m interface{}) error {
 		return status.Errorf(codes.ResourceExhausted, "serialized message is too large: %d bytes > maximum %d bytes", len(b), math.MaxUint32)
 	}
 
-	return st.sender.send(b)
+	if err := st.sender.send(b); err != nil {
+		if doneErr := st.loadDone(); doneErr != nil {
+			// The RPC finished while we were sending (for example, the
+			// server closed or refused the stream while this send was
+			// waiting for flow control window). Report how it finished,
+			// not the cancellation of the stream's context caused by that.
+			return doneErr
+		}
+		return err
+	}
+	return nil
 }
 
 func (st *tunnelClientStream) RecvMsg(m interface{}) error {
